@@ -105,6 +105,7 @@ def run(ctx):
     runs = mism = 0
     samples = []
 
+    pending = []
     # (b1) in-process driver: every run set x sequential/parallel x with/without gob round trip
     for seq in (False, True):
         for sanity in (True, False):
@@ -117,8 +118,13 @@ def run(ctx):
                     items.append((p2, restrict(exp, sub), {"variant": v, "named": sub, "driver": "inproc", "sequential": seq, "gob": sanity}))
             rep = progcheck.Replay(ctx, None)
             rep.check(items, sequential=seq, sanity=sanity, project=lambda ds: proglib.keyset(ds))
-            rep.settle(project=lambda ds: proglib.keyset(ds),
-                       describe=lambda m: "in-process driver, named %s, sequential=%s, gob round trip=%s, variant %s" % (m["named"], m["sequential"], m["gob"], m["variant"]))
+            try:
+                rep.settle(project=lambda ds: proglib.keyset(ds),
+                           describe=lambda m: "in-process driver, named %s, sequential=%s, gob round trip=%s, variant %s" % (m["named"], m["sequential"], m["gob"], m["variant"]))
+            except vlib.ToolError as e:
+                # a mismatch that reproduced neither alone nor in its batch: remember it and go on - the later stages (real drivers,
+                # wide module) decide whether analyses interfere; it is raised at the end if nothing else was found
+                pending.append(str(e))
             runs += rep.run
             samples = samples or rep.samples[:1]
     if ctx.violations:
@@ -224,6 +230,39 @@ def run(ctx):
                           % (drv, sorted(texp - got)[:6], sorted(got - texp)[:6]),
                           {"kind": "twomodules", "driver": drv, "expected": sorted(texp), "observed": sorted(got)})
 
+    # (b4) a wide module: many unrelated packages full of annotations analysed concurrently by the standalone driver (their annotation
+    # readers run in parallel); every importer must see every annotation of its dependency
+    NL, NT = (32, 300) if thorough else (24, 200)
+    wide = os.path.join(ctx.scratch, "wide")
+    os.makedirs(wide, exist_ok=True)
+    open(os.path.join(wide, "go.mod"), "w").write("module m\n\ngo 1.25\n")
+    for i in range(NL):
+        os.makedirs(os.path.join(wide, "l%02d" % i), exist_ok=True)
+        os.makedirs(os.path.join(wide, "u%02d" % i), exist_ok=True)
+        leaf = ["package l%02d" % i, ""]
+        use = ["package u%02d" % i, "", 'import "m/l%02d"' % i, ""]
+        for t in range(NT):
+            leaf += ["// T%03d is immutable." % t, "// @immutable", "type T%03d struct{ X int }" % t, ""]
+            use += ["func f%03d(p *l%02d.T%03d) { p.X = %d }" % (t, i, t, t), ""]
+        open(os.path.join(wide, "l%02d" % i, "l.go"), "w").write("\n".join(leaf) + "\n")
+        open(os.path.join(wide, "u%02d" % i, "u.go"), "w").write("\n".join(use) + "\n")
+    want_n = {"u%02d" % i: NT for i in range(NL)}
+    for rep in range(3 if thorough else 2):
+        rw = _sp.run([real, "-json", "./..."], cwd=wide, env=vlib.go_env(), stdout=_sp.PIPE, stderr=_sp.PIPE, text=True, timeout=600)
+        ds, errs = proglib.parse_json_tree(rw.stdout, wide)
+        runs += 1
+        got_n = {}
+        for dg in proglib.dedup(ds):
+            if dg["code"] == "IMM01":
+                got_n[dg["file"].split("/")[0]] = got_n.get(dg["file"].split("/")[0], 0) + 1
+        if (errs or vlib.crashed(rw.stderr) or got_n != want_n) and len(ctx.violations) < 3:
+            short = {k: (got_n.get(k, 0), v) for k, v in want_n.items() if got_n.get(k, 0) != v}
+            ctx.violation("wide module (%d unrelated packages with %d @immutable types each, one importer per package), standalone driver, run %d: "
+                          "importers that do not see every annotation of their dependency (observed, expected): %s %s"
+                          % (NL, NT, rep + 1, dict(list(short.items())[:6]), str(errs)[:200] if errs else ""),
+                          {"kind": "wide", "packages": NL, "types": NT, "short": short})
+            break
+
     # (c) trace validation: generated programs, and the repository's own integration fixtures, both drivers
     fixtures = []
     fx_root = os.path.join(vlib.REPO, "testdata", "integration", "src")
@@ -272,6 +311,8 @@ def run(ctx):
                       {"kind": "trace", "driver": drv, "run": what[1:] if what else None, "rejected_event": line,
                        "explanation": "Start before its prerequisites, Import from a non-direct import or with a digest that differs from the exported one, "
                                       "End without Export / with an error, or a run that finished with an action still running"})
+    if pending and not ctx.violations:
+        raise vlib.ToolError(pending[0])
     return ctx.finish("model_checking", {
         "traces_validated_against_impl": accepted + runs,
         "samples": samples + [{"trace_events_sample": [json.loads(x) for x in open(traces["vet"][0][0]).read().splitlines()[:6]]}],
